@@ -1707,6 +1707,12 @@ class Kconfig(object):
     def _assigned_twice(self, sym, new_val, filename, linenr):
         # Called when a symbol is assigned more than once in a .config file
 
+        # The symbol may have been reset to its default since it was assigned
+        # (unset_value() / _restore_default() keep _was_set): there is no old
+        # value then, and nothing to warn about.
+        if sym._user_value is None:
+            return
+
         # Use strings for bool user values in the warning
         if sym.orig_type == BOOL:
             user_val = BOOL_TO_STR[sym._user_value]
